@@ -355,6 +355,9 @@ def model_call(path, args):
     t = _is_unsigned_num(path, "overflowing_sub")
     if t:
         return [((), ("agg", "tuple", mk_bin("Sub", args[0], args[1]), mk_bin("Lt", args[0], args[1])))]
+    t = _is_signed_num(path, "overflowing_sub")
+    if t:
+        return [((), ("agg", "tuple", mk_bin("Sub", args[0], args[1]), ("ovf", "Sub", args[0], args[1])))]
     t = _is_unsigned_num(path, "checked_sub")
     if t:
         return [((atom_of(mk_bin("Ge", args[0], args[1]), True),),
